@@ -55,6 +55,11 @@ type SimConn struct {
 	ops           int64
 	budget        int64
 
+	// TornAt/TornLen: a write that failed after TornLen (> 0) of its bytes had
+	// reached the peer although the transport went on working: len(Out) at that
+	// moment. Whatever the server writes afterwards arrives behind a torn message.
+	TornAt, TornLen     int
+	TimeoutOut          int    // len(Out) when a Read last reported a transient timeout
 	Out                 []byte // bytes of writes the transport reported as successful
 	Raw                 []byte // everything that reached the wire, including partial failed writes
 	Quiesce             []int  // len(Out) at every quiescence point (server waiting with no input pending)
@@ -250,6 +255,14 @@ func (c *SimConn) Read(p []byte) (int, error) {
 		c.rec("read", "fault")
 		return 0, errSimReset
 	}
+	if f := c.fault("read-timeout", idx); f != nil {
+		// a transient failure: this Read reports a timeout (a deadline armed by
+		// whoever wraps the connection), no byte is lost, later reads succeed
+		c.FaultFired["read-timeout"]++
+		c.TimeoutOut = len(c.Out)
+		c.rec("read", "timeout")
+		return 0, timeoutError{"sim: i/o timeout"}
+	}
 	if f := c.fault("empty-read", idx); f != nil && len(p) > 0 {
 		c.FaultFired["empty-read"]++
 		c.EmptyReads++
@@ -260,6 +273,22 @@ func (c *SimConn) Read(p []byte) (int, error) {
 	}
 	for !c.eof && c.pendingLen() == 0 {
 		// quiescence point
+		if !c.rt.K.enabled && simSleepers.Load() > 0 {
+			// engine E1: somebody else - a goroutine the code under test started
+			// on its own - is asleep on the simulated clock. The client waits for
+			// the server to go idle, so the time passes: sleep along until nobody
+			// is asleep, then let the clock tick once more (a sleep on the
+			// bubble's clock returns only when every other goroutine is durably
+			// blocked or gone).
+			for simSleepers.Load() > 0 {
+				d := time.Until(time.Unix(0, simSleepUntil.Load()))
+				if d <= 0 {
+					d = time.Millisecond
+				}
+				time.Sleep(d)
+			}
+			time.Sleep(time.Nanosecond)
+		}
 		c.Quiesce = append(c.Quiesce, len(c.Out))
 		if c.cc.Measure {
 			now := readAllocBytes()
@@ -420,6 +449,8 @@ func (c *SimConn) Write(p []byte) (int, error) {
 			if j < 0 {
 				j = 0
 			}
+			// (the server armed this deadline itself: what it cut off is its own
+			// output, not a transport failure)
 			c.Raw = append(c.Raw, p[:j]...)
 			c.Out = append(c.Out, p[:j]...)
 			c.FaultFired["deadline-exceeded"]++
@@ -430,8 +461,25 @@ func (c *SimConn) Write(p []byte) (int, error) {
 	}
 	if f := c.fault("write-err-transient", idx); f != nil {
 		c.FaultFired["write-err-transient"]++
-		c.rec("write", fmt.Sprintf("transient-fault of %d", len(p)))
-		return 0, errSimBroken
+		// Bytes of the buffer reach the peer before the write fails (a write
+		// deadline that expires half-way, a full socket buffer that reports
+		// ENOBUFS): they are on the wire
+		j := f.Bytes
+		if j >= len(p) {
+			j = len(p) - 1
+		}
+		if j < 0 {
+			j = 0
+		}
+		c.Raw = append(c.Raw, p[:j]...)
+		if j > 0 && c.TornLen == 0 {
+			c.TornAt, c.TornLen = len(c.Out), j
+		}
+		c.rec("write", fmt.Sprintf("transient-fault accepted=%d of %d", j, len(p)))
+		if f.Timeout {
+			return j, timeoutError{"sim: i/o timeout"}
+		}
+		return j, errSimBroken
 	}
 	c.Out = append(c.Out, p...)
 	c.Raw = append(c.Raw, p...)
